@@ -33,7 +33,7 @@ def matches(v, finding):
 
 
 NUM_KEYS = ["scenarios", "incomplete_scenarios", "single_outcome_scenarios", "states", "transitions", "invocations",
-            "schedules", "commands", "multi_outcome_points", "tainted_worlds", "dev_capped", "crash_runs", "crash_worlds"]
+            "schedules", "commands", "multi_outcome_points", "tainted_worlds", "dev_capped", "crash_runs", "crash_worlds", "io_fault_runs"]
 
 
 def run(check, scenarios, props, depth=None, devbound=None, seconds=None, tag="nx", extra=()):
@@ -150,6 +150,7 @@ def coverage(agg, rule, families, extra=None):
         "deviation_capped_branches": agg["dev_capped"],
         "crash_point_executions": agg.get("crash_runs", 0),
         "worlds_after_a_crash_examined": agg.get("crash_worlds", 0),
+        "injected_io_error_executions": agg.get("io_fault_runs", 0),
         "incomplete_scenarios": agg["incomplete_scenarios"],
         "worlds_not_expanded_because_tainted_by_a_finding": agg["tainted_worlds"],
         "families": families,
